@@ -101,7 +101,7 @@ func genLogical(t *rapid.T) logical {
 
 	l.Rest = strings.Join(restDec, "/")
 	l.LR = vkit.LogicalRequest{
-		Method:   rapid.SampledFrom([]string{"GET", "POST", "PUT", "DELETE"}).Draw(t, "method"),
+		Method:   rapid.SampledFrom([]string{"GET", "POST", "PUT", "DELETE", "GET", "POST", "PROPFIND", "PURGE", "QUERY"}).Draw(t, "method"),
 		Scheme:   rapid.SampledFrom([]string{"http", "https"}).Draw(t, "scheme"),
 		Host:     rapid.SampledFrom([]string{"svc.example.com", "api.example.com:8443"}).Draw(t, "host"),
 		RawPath:  "/svc/" + idRaw + "/" + strings.Join(restRaw, "/"),
@@ -196,6 +196,7 @@ func genLogical(t *rapid.T) logical {
 	// the body reaches the Envoy entry point as bytes or as string, depending on Envoy's configuration
 	// the body may come without an announced length (chunked transfer encoding); Envoy buffers it either way
 	l.LR.Chunked = len(l.LR.Body) != 0 && rapid.IntRange(0, 2).Draw(t, "chunkedBody") == 1
+	l.LR.ForwardAuth = rapid.IntRange(0, 2).Draw(t, "decisionAskedByAGateway") == 1
 	l.LR.EnvoyQuerySeparately = rapid.IntRange(0, 3).Draw(t, "envoyQuerySeparately") == 2
 	l.LR.EnvoyBodyAsString = len(l.LR.Body) != 0 && !strings.Contains(l.BodyKind, "empty") && rapid.IntRange(0, 2).Draw(t, "envoyBodyAsString") == 0
 
@@ -218,6 +219,11 @@ func celString(s string) string {
 
 func buildWorld(l logical, k ruleKnobs, mode config.OperationMode) (*vkit.World, error) {
 	conf := vkit.DefaultConf()
+
+	if l.LR.ForwardAuth {
+		conf.Serve.Decision.TrustedProxies = &[]string{"192.0.2.10"}
+	}
+
 	p := conf.Prototypes
 	p.Authenticators = []config.Mechanism{{ID: "anon", Type: "anonymous"}}
 
@@ -500,6 +506,7 @@ func TestEntryPointsAgree(t *testing.T) {
 		vkit.S.Label("authz_on=" + k.AuthzOn)
 		vkit.S.Label("cond_on=" + k.CondOn)
 		vkit.S.Label("body=" + l.BodyKind)
+		vkit.S.LabelIf(l.LR.ForwardAuth, "decision_service_asked_by_a_gateway")
 		vkit.S.LabelIf(k.MultiValue, "multi_valued_pipeline_header")
 		vkit.S.LabelIf(len(l.HdrValues) >= 2, "multi_valued_request_header")
 		vkit.S.LabelIf(l.DupCookie, "duplicate_cookie_name")
@@ -511,6 +518,12 @@ func TestEntryPointsAgree(t *testing.T) {
 		if k.AuthzOn != "none" && k.AuthzOn != "url" || k.CondOn != "none" || len(l.HdrValues) >= 2 || l.BodyKind != "none" || l.Cookie != "" {
 			vkit.S.NonTrivial(desc, map[string]any{"method": l.LR.Method, "path": l.LR.RawPath, "query": l.LR.RawQuery, "headers": l.LR.Headers,
 				"body": string(l.LR.Body), "knobs": k, "decision_view": obs[vkit.EntryDecision].String()})
+		}
+
+		if d := obs[vkit.EntryDecision]; l.LR.ForwardAuth && d.Positive && obs[vkit.EntryProxy].Positive {
+			// the Host header of the request a gateway sends to ask for a decision is that of the decision service itself
+			// (the client's host comes as X-Forwarded-Host and is compared as Request.URL.Host): inherent to that channel
+			d.View["X-V-HostHdr"], d.View["X-V-HostMap"] = obs[vkit.EntryProxy].View["X-V-HostHdr"], obs[vkit.EntryProxy].View["X-V-HostMap"]
 		}
 
 		if exclMulti && k.MultiValue {
